@@ -295,7 +295,8 @@ def install(lib, np_):
     if s.term is not None and s.shape.rank == 1:
       cx.p.assume(m == TH.ndistinct(s.term))
     dims = [m] + (list(s.shape.dims[1:]) if ax == 0 else [])
-    u = cx.new(TH.uniqueT(s.term) if s.term is not None else None, dims, s.kind, vf=s.vf)
+    usym = TH.unique_rows if (ax == 0 and s.shape.rank >= 2) else TH.uniqueT
+    u = cx.new(usym(s.term) if s.term is not None else None, dims, s.kind, vf=s.vf)
     outs = [u]
     if return_inverse is not None and kwbool(return_inverse, False):
       inv_dims = [n] if ax == 0 else list(s.shape.dims) if s.shape.rank == 1 else [s.shape.size()]
@@ -404,6 +405,27 @@ def install(lib, np_):
       return out
     return cx.new(None, dims, 'f')
 
+  @ext('numpy.multiply', 'elementwise product with broadcasting; out= writes in place and returns that array')
+  def _multiply(cx, x, y, out=None, **kw):
+    import ast as _ast
+    if kw.get('where') is not None:
+      raise Unsupported('np.multiply(where=) (line %s)' % cx.line())
+    (q, res), = np_.binop(cx, _ast.Mult(), x, y)
+    if out is not None and isinstance(out, VArr):
+      np_.write(cx, out, 'np.multiply(out=)', value=cx.st(res).term if isinstance(res, VArr) else None)
+      return out
+    return res
+
+  @ext('numpy.count_nonzero', 'ASSUMED: number of non-zero entries: between 0 and the size')
+  def _count_nonzero(cx, a, axis=None, **kw):
+    if axis is not None and not isinstance(axis, VNone):
+      raise Unsupported('np.count_nonzero(axis=) (line %s)' % cx.line())
+    s = as_arr(cx, a)
+    t = fresh('nnz', z3.IntSort())
+    cx.p.assume(t >= 0)
+    cx.p.assume(t <= s.shape.size())
+    return VInt(t)
+
   @ext('numpy.outer')
   def _outer(cx, a, b, **kw):
     sa, sb = st_of(cx, a), st_of(cx, b)
@@ -503,7 +525,10 @@ def install(lib, np_):
   def _pinvh(cx, a, **kw):
     s = st_of(cx, a)
     cx.may_raise('LinAlgError', None, 'pinvh: eigenvalue computation did not converge')
-    return cx.new(TH.pinv(s.term) if s.term is not None else None, s.shape.dims, 'f')
+    # the Moore-Penrose pseudo-inverse is what pinvh computes with its DEFAULT cut-off (relative to the largest eigenvalue); a caller-chosen
+    # atol / rtol / cond gives a different function of the matrix, which is not the spec function `pinv`
+    custom = any(k in kw and not isinstance(kw[k], VNone) for k in ('atol', 'rtol', 'cond', 'rcond'))
+    return cx.new(TH.pinv(s.term) if (s.term is not None and not custom) else None, s.shape.dims, 'f')
 
   @ext('numpy.linalg.inv', 'ASSUMED: inverse; LinAlgError for a singular matrix')
   def _inv(cx, a, **kw):
